@@ -96,11 +96,20 @@ def wl_bloom(ctx, rng, case):
                 hist.append((kk, -n))
             elif counting:
                 n = rng.choice([1, 1, 2, 7, 300])
-                f.add(kk, n)
+                if rng.random() < 0.25:
+                    # the key hashed once for a DEEPER structure and the list handed to this one: only the first number_hashes values count
+                    f.add_alt(refimpl.fnv_chain(gen.to_bytes(kk), k + rng.randint(1, 6)), n)
+                    ctx.count("additions_through_a_deeper_hash_list")
+                else:
+                    f.add(kk, n)
                 out[kk] += n
                 hist.append((kk, n))
             else:
-                f.add(kk)
+                if rng.random() < 0.25:
+                    f.add_alt(refimpl.fnv_chain(gen.to_bytes(kk), k + rng.randint(1, 6)))
+                    ctx.count("additions_through_a_deeper_hash_list")
+                else:
+                    f.add(kk)
                 hist.append((kk, 1))
         case.op("history", hist)
         path = sc.path("lib")
@@ -124,6 +133,9 @@ def wl_bloom(ctx, rng, case):
         for key, a in zip(probe, parts[7:]):
             lib = f.check(key)
             ctx.counters["disagreements_checked"] += 1
+            deep = f.check_alt(refimpl.fnv_chain(gen.to_bytes(key), k + 3))
+            if int(deep) != int(lib):
+                ctx.fail("check_alt() given a deeper hash list answers differently from check()", key=key, check=int(lib), check_alt=int(deep))
             if int(a) != int(lib):
                 ctx.fail("C reference reader answers differently from the library for the same exported file", key=key, c=int(a), library=int(lib))
         ctx.count("programs.files_read_by_c_reader")
